@@ -161,7 +161,8 @@ def identity_flow(ctx, rep, rule):
             rep.check(not bad and not swallowed, rule, "%s handler keeps the exception" % e.where, fn,
                       "`except %s` in the wrapper %s" % (src(h.type) if h.type else '',
                                                          "swallows the job's exception" if swallowed else
-                                                         "raises a different exception: `%s`" % src(bad[0])),
+                                                         "raises a different exception: `%s`"
+                                                         % (src(bad[0]) if bad else '')),
                       "raised_exception() is not the exception object the job raised (or is lost)",
                       trace(e.st))
     for st, kind, node in out.exc:
